@@ -1145,6 +1145,36 @@ def install(eng):
 
     import itertools
 
+    @reg(itertools.chain, "itertools.chain")
+    def m_chain(eng, st, args, kw):
+        # chain(a, b, ...) over iterables of concrete shape (Python lists / tuples whose elements may be symbolic): their
+        # elements in order; a heap list of symbolic content contributes its content as one opaque run
+        parts = []
+        for a_ in args:
+            if isinstance(a_, (list, tuple)):
+                parts.append(list(a_))
+            else:
+                it = to_iter(eng, st, a_)
+                if isinstance(it, list):
+                    parts.append(it)
+                elif it.seq is not None:
+                    parts.append(it.seq)
+                else:
+                    raise Unsupported("itertools.chain over an iterable whose items are not known as a sequence")
+        if all(isinstance(p_, list) for p_ in parts):
+            yield st, eng.new_list(st, [x for p_ in parts for x in p_])  # (a heap list: it may be stored in an object)
+            return
+        seqs = []
+        for p_ in parts:
+            if isinstance(p_, list):
+                seqs.extend(z3.Unit(eng.lift(x, st)) for x in p_)
+            else:
+                seqs.append(p_)
+        content = seqs[0] if len(seqs) == 1 else z3.Concat(*seqs)
+        r = eng.alloc(st, list)
+        st.lists = z3.Store(st.lists, V.Val.a(r.t), content)
+        yield st, r
+
     @reg(itertools.islice, "itertools.islice")
     def m_islice(eng, st, args, kw):
         # islice(iterable, stop): the first min(stop, len) items
